@@ -19,6 +19,8 @@ enum Req {
     SetPos,
     Force,
     Println,
+    /// reset(): an ordinary redraw request; it does not hand out fresh position tokens
+    Reset,
 }
 
 const MS: u64 = 1_000_000;
@@ -178,7 +180,8 @@ fn run_case(seed: u64, idx: u64, all_rates: bool) -> CaseOut {
             nested += 1;
             continue 'ops;
         }
-        let req = match rng.below(20) {
+        let req = match rng.below(21) {
+            20 => Req::Reset,
             0 => Req::Force,
             1 => Req::Println,
             2..=5 => Req::Msg,
@@ -205,6 +208,14 @@ fn run_case(seed: u64, idx: u64, all_rates: bool) -> CaseOut {
             Req::SetPos => {
                 model[b].0 = rng.range(0, 2000);
                 bars[b].set_position(model[b].0);
+            }
+            Req::Reset => {
+                model[b].0 = 0;
+                bars[b].reset();
+                // (the position bucket starts counting from now; it is not refilled)
+                if let Some(a) = last_admitted_update[b].as_mut() {
+                    *a = (*a).max(now);
+                }
             }
             Req::Force => bars[b].force_draw(),
             Req::Println => match &mp {
